@@ -119,7 +119,7 @@ class C11(core.Check):
             obj['general']['cstr_terminator'] = term
         if emb or rng.random() < 0.2:
             obj['general']['allow_embedded_strings'] = emb
-        start = rng.choice([0, 0, 3, 100])
+        start = rng.choice([0, 0, 3, 100, 64, 128, 61, 250])
         lines = [{'k': 'org', 'addr': start, 'zone_name': None, 'text': f'.org {start}'}]
         n = rng.randrange(4, 16) if not charfirst else 1
         label_names = list(LABELS)
